@@ -41,6 +41,41 @@ def to01 (x : α) : α := (x + 1) / two
 /-- spin value of a bit in the library's convention `0 ↦ −1, 1 ↦ +1`: `to_pm1` of the 0/1 entry -/
 def spin (b : Bool) : α := toPm1 (bit b)
 
+/-! ### the identity strings the built-in observables give themselves (`self.name = …; self.symbol = …` in
+pauli.py:46-47, 96-97, 149-150, entanglement.py:54-55, interactions.py:37-40). Names are the keys under which `System`
+and `ObservableEvaluator` report an observable. -/
+
+/-- `str(flag)` — what `"{}".format(flag)` prints for the object handed over as a flag -/
+def PyFlag.pyStr : PyFlag → String
+  | .pyBool b => if b then "True" else "False"
+  | .pyInt i => toString i
+  | .npBool b => if b then "True" else "False"
+  | .npArr0 b => if b then "True" else "False"
+  | .tensor0 b => if b then "tensor(True)" else "tensor(False)"
+
+/-- `str(c)` for the interaction distance: decimal for Python / numpy integers and 0-d numpy arrays, `tensor(c)` for a
+0-d torch tensor -/
+def distStr (c : Nat) (tensorForm : Bool) : String :=
+  if tensorForm then "tensor(" ++ toString c ++ ")" else toString c
+
+/-- the built-in observable classes with the constructor arguments that enter their names -/
+inductive Builtin where
+  | sigmaX | sigmaY | sigmaZ | swap
+  | neighbour (periodic : PyFlag) (c : Nat) (cTensor : Bool)
+
+/-- `(class name, name, symbol)` after `__init__`: note that `absolute` (Pauli) and `A` (SWAP) do NOT enter the name —
+two such observables given to one `System` collide (known finding F19) — while `periodic_bcs` and `c` do, rendered
+with `str` of the objects AS PASSED. -/
+def Builtin.names : Builtin → String × String × String
+  | .sigmaX => ("SigmaX", "SigmaX", "X")
+  | .sigmaY => ("SigmaY", "SigmaY", "Y")
+  | .sigmaZ => ("SigmaZ", "SigmaZ", "Z")
+  | .swap => ("SWAP", "SWAP", "S")
+  | .neighbour p c t =>
+    ("NeighbourInteraction",
+     "NeighbourInteraction(periodic_bcs=" ++ p.pyStr ++ ", c=" ++ distStr c t ++ ")",
+     "(Z_i * Z_(i+" ++ distStr c t ++ "))")
+
 /-- The importance-sampling interface of `NeuralStateBase` (neural_state.py:266-324):
 `numer vp v = importance_sampling_numerator(vp, v)`, `denom v = importance_sampling_denominator(v)`. -/
 structure ImpState (α : Type) (n : Nat) where
